@@ -223,13 +223,35 @@ pub fn run(out: &mut Out, seed: u64, thorough: bool) {
             }
         }
     }
+    // a final mandatory extension takes the place of the protocol type on the wire, but the total length still
+    // counts two bytes for it: PDUs at the 16-bit limit, just below and just above
+    for (ei, (exts, ptype)) in [(vec![ExtSpec { id: 0x0046, data: vec![] }], 0x0046u16), (vec![ExtSpec { id: 0x0043, data: vec![5, 6] }], 0x0043), (vec![ExtSpec { id: 0x0211, data: vec![1, 2] }], 0x0800)].iter().enumerate() {
+        for (label, ll) in [(LA3, 3usize), (LA6, 6), (Label::Broadcast, 0)] {
+            for d in -2i64..=2 {
+                let plen = (65533 - ll as i64 + d) as usize;
+                let pdu = Pdu::random(out, plen, &mut rng);
+                out.begin("ext", Obj::new().str("what", "final_ext_near_limit").boolean("lock", false));
+                let mut enc = Encapsulator::new(DefaultCrc {});
+                ev_encap(out, &mut enc, &pdu, (40 + ei) as u8, label, *ptype, 4097, Some(exts), None);
+                // the packet after it (a failed call leaves no trace)
+                let small = Pdu::random(out, 4, &mut rng);
+                ev_encap(out, &mut enc, &small, 3, label, 0x0800, 64, None, None);
+            }
+        }
+    }
     // mandatory extensions longer than 255 bytes: a sender may build them (the receiver's manager cannot describe
     // them, so nothing is fed); every length the sender reports must still be the length it wrote
-    for n in [256usize, 257, 300, 511, 512, 1000, 2040, 2045, 2500, 4000, 4085, 4090, 5000] {
+    for n in [256usize, 257, 300, 511, 512, 1000, 2040, 2045, 2500, 4000, 4085, 4090, 5000, 65534, 65536, 66000] {
         let e = [ExtSpec { id: 0x0048, data: rng.bytes(n) }];
         for plen in [20usize, 3000] {
             let pdu = Pdu::random(out, plen, &mut rng);
+            if n > 60000 && plen > 100 {
+                continue;
+            }
             for buf in [4 + 3 + 2 + n + plen, 4097, 100, 7 + 3 + 2 + n, 7 + 3 + 2 + n + 5, (n % 256) + 30, 8000, 70000] {
+                if n > 60000 && !(buf == 4097 || buf == 70000 || buf == 4 + 3 + 2 + n + plen) {
+                    continue;
+                }
                 out.begin("ext", Obj::new().str("what", "long_mandatory").boolean("lock", false));
                 let mut enc = Encapsulator::new(DefaultCrc {});
                 ev_encap(out, &mut enc, &pdu, 3, LA3, 0x0800, buf, Some(&e), None);
